@@ -22,7 +22,11 @@ def call_builtin(ip, f, args, kwargs):
     from .interp import PyRaise, ExcVal, StarArgs, ConcreteIter
     name = getattr(f, "__name__", None) or repr(f)
     mod = getattr(f, "__module__", None)
+    if f is _b.zip and len(args) == 1 and isinstance(args[0], StarArgs):
+        return _zip_star(ip, args[0].v)
     if any(isinstance(a, StarArgs) for a in args):
+        if getattr(ip, "frame_only", False):
+            return Z(V.fresh(f"ext_{name}"))
         raise Unsupported(f"builtin {name} with symbolic *args")
 
     # ---- pure builtins on concrete operands: CPython itself
@@ -82,7 +86,7 @@ def call_builtin(ip, f, args, kwargs):
             zo = args[0].t
             ip.guard([("TypeError", z3.Not(z3.Or(V.is_dict(zo), V.is_seq(zo)))), ("ValueError", z3.And(V.is_seq(zo), z3.Length(V.seq_items(zo)) > 0))])
             ip.path.assume(V.is_dict(zo))
-            return Z(zo)          # a shallow copy: same value, fresh identity (value semantics)
+            return FreshZ(zo, None, False)          # a shallow copy: same value, fresh identity
         raise Unsupported("dict(...) of this argument")
     if f is _b.set:
         if not args:
@@ -129,11 +133,14 @@ def call_builtin(ip, f, args, kwargs):
         return args[0] if not isinstance(args[0], C) else ConcreteIter(ip.iter_concrete(args[0]))
     if f is _b.next:
         it = args[0]
-        items = ip.try_iter_concrete(it) if not isinstance(it, Z) else None
+        items = ip.try_iter_concrete(it) if not isinstance(it, (Z, SymZip, SymEnumerate)) else None
         if items is not None:
             if not items:
                 raise PyRaise("StopIteration")
             return items[0]
+        if isinstance(it, SymZip):
+            ip.guard([("StopIteration", z3.Or([z3.Length(sq) == 0 for sq in it.seqs]))])
+            return LTuple([Z(sq[0]) for sq in it.seqs])
         seq = ip.iter_seq(it)
         ip.guard([("StopIteration", z3.Length(seq) == 0)])
         return Z(seq[0])
@@ -147,6 +154,14 @@ def call_builtin(ip, f, args, kwargs):
                 if e.kind == "AttributeError" and len(args) > 2:
                     return args[2]
                 raise
+        if getattr(ip, "frame_only", False):
+            methods, _ = ip.program_names()
+            allc = [c for lst in methods.values() for c in lst]
+            recv = args[0]
+            if isinstance(recv, Z) and recv.cls is not None:
+                allc = [(k, f) for (k, f) in allc if issubclass(recv.cls, k)]
+            from .interp import UnknownMethod
+            return UnknownMethod("<any>", args[0], allc)
         raise Unsupported("getattr with a symbolic name")
     if f is _b.hasattr:
         try:
@@ -174,6 +189,12 @@ def call_builtin(ip, f, args, kwargs):
         return Z(V.VStr(V.fresh("escaped", V.S)))
     if f is _b.max or f is _b.min:
         raise Unsupported(name)
+    if getattr(ip, "frame_only", False):
+        # frame-only verification: an external / builtin call returns an unknown value; it is assumed not to write to
+        # valida objects or to the caller's containers (builtins used by valida that mutate - list.sort etc. - are
+        # methods, handled above)
+        ip.assumptions_used.add(f"external call {mod}.{name}: no effect on program objects, result unknown")
+        return Z(V.fresh(f"ext_{name}"))
     if inspect.isclass(f) and issubclass(f, enum.Enum):
         raise Unsupported(f"enum {f.__name__} of a symbolic value")
     raise Unsupported(f"builtin / external function {mod}.{name}")
@@ -237,7 +258,7 @@ def _isinstance(ip, x, classes):
             for c in cls_list:
                 if ip.program.is_ours(c):
                     subs = [k for k in ip.program.class_ids if issubclass(k, c)]
-                    alts.append(z3.And(V.is_obj(zx), z3.Or([tv == ip.program.class_id(k) for k in subs])) if subs else z3.BoolVal(False))
+                    alts.append(z3.And(V.is_obj(zx), z3.Or([V.Val.cls(zx) == ip.program.class_id(k) for k in subs])) if subs else z3.BoolVal(False))
                 else:
                     tid = V.type_id(c)
                     alts.append(z3.Or(tv == tid, z3.And(tv == V.T_BOOL, tid == V.T_INT)) if c is int else tv == tid)
@@ -426,30 +447,41 @@ def call_builtin_method(ip, bm, args, kwargs):
         if name == "endswith":
             return ZBool(z3.SuffixOf(V.Val.s(ip.to_z(args[0])), s))
         if name == "split":
+            if getattr(ip, "frame_only", False):
+                return LList(None, V.fresh("split", V.VS), fresh=True)
             raise Unsupported("str.split on a symbolic string")
         f = z3.Function(f"str_{name}", V.S, *([V.S] * len(args)), V.S)
         return Z(V.VStr(f(s, *[V.Val.s(ip.to_z(a)) for a in args])))
     if name in ("append", "extend", "insert", "remove", "clear", "sort", "reverse"):
         ip.guard([("AttributeError", z3.Not(V.is_list(zo)))])
-        from .builtins_model import FreshZ
-        if not isinstance(recv, FreshZ):
-            ip.frame_violation(f"list.{name} on a pre-existing list value")
+        if not isinstance(recv, FreshZ) and id(recv) not in ip.modifies_ok:
+            ip.frame_violation(f"list.{name} on a list that existed before this call")
+        if getattr(ip, "frame_only", False):
+            return C(None)
         raise Unsupported(f"list.{name} on a symbolic list value")
     # any other attribute of a JSON-like value does not exist
-    ip.guard([("AttributeError", z3.Not(V.is_obj(zo)))])
+    ip.guard([("AttributeError", z3.Not(z3.Or(V.is_obj(zo), V.Val.is_VOpaque(zo))))])
+    if getattr(ip, "frame_only", False):
+        # not a method of any program class: the receiver is an external object (yaml loader, regex, signature ...)
+        ip.assumptions_used.add(f"method .{name}() of an external object: no effect on program objects, result unknown")
+        return Z(V.fresh(f"ext_{name}"))
     raise Unsupported(f"method {name} on a symbolic object of unknown class")
 
 
 def symbolic_dict_mutation(ip, recv, name, args, kwargs):
-    if not isinstance(recv, FreshZ):
-        ip.frame_violation(f"dict.{name} on a pre-existing mapping value")
+    if not isinstance(recv, FreshZ) and id(recv) not in ip.modifies_ok:
+        ip.frame_violation(f"dict.{name} on a mapping that existed before this call")
+    if getattr(ip, "frame_only", False):
+        return Z(V.fresh(f"dict_{name}"))
     raise Unsupported(f"dict.{name} on a symbolic mapping")
 
 
 def symbolic_setitem(ip, obj, key, v):
     """obj[key] = v on a symbolic container value: allowed only on fresh copies (functional update of the term)."""
-    if not isinstance(obj, FreshZ):
-        ip.frame_violation("item assignment into a pre-existing container value")
+    if not isinstance(obj, FreshZ) and id(obj) not in ip.modifies_ok:
+        ip.frame_violation("item assignment into a container that existed before this call")
+    if getattr(ip, "frame_only", False):
+        return None
     raise Unsupported("item assignment into a symbolic container (needs the Update spec function)")
 
 
@@ -530,3 +562,38 @@ def call_symbolic_function(ip, f, args, kwargs):
     resolved through the contract table of the finite set of functions it may denote."""
     from .contract_apply import apply_function_value
     return apply_function_value(ip, f, args, kwargs)
+
+
+ProjSeq = z3.RecFunction("ProjSeq", V.VS, V.I, V.I, V.VS)     # [item[c] for item in xs[i:]]
+_ps, _pc, _pi = z3.Const("pj_s", V.VS), z3.Int("pj_c"), z3.Int("pj_i")
+z3.RecAddDefinition(ProjSeq, [_ps, _pc, _pi], z3.If(z3.Or(_pi < 0, _pi >= z3.Length(_ps)), z3.Empty(V.VS), z3.Concat(
+    z3.Unit(V.seq_items(_ps[_pi])[_pc]), ProjSeq(_ps, _pc, _pi + 1))))
+
+
+def _zip_star(ip, v):
+    """zip(*xs): transposition.  For xs = d.items() the two columns are the key and value sequences; for a symbolic
+    sequence of pairs the columns are its projections (an instance of the map-comprehension scheme)."""
+    from .interp import ConcreteIter, PyRaise
+    if isinstance(v, SymZip):
+        n = z3.Length(v.seqs[0])
+        if ip.path.branch(n > 0):
+            return ConcreteIter([ZSeq(s, "tuple") for s in v.seqs])
+        return ConcreteIter([])
+    items = ip.try_iter_concrete(v) if not isinstance(v, Z) else None
+    if items is not None:
+        cols = [ip.try_iter_concrete(i) for i in items]
+        if all(c is not None for c in cols):
+            return ConcreteIter([LTuple(list(t)) for t in zip(*cols)])
+    seq = ip.iter_seq(v)
+    n = z3.Length(seq)
+    if not ip.path.branch(n > 0):
+        return ConcreteIter([])
+    # every item must be a sequence of one common length; valida only transposes (value, path) pairs
+    ip.assumptions_used.add("zip(*xs) over a symbolic sequence: the items are pairs (value, path)")
+    cols = []
+    for c in range(2):
+        col = ProjSeq(seq, z3.IntVal(c), z3.IntVal(0))
+        ip.path.assume(z3.Length(col) == n)
+        ip.path.add_qfact(lambda j, col=col, c=c: z3.Implies(z3.And(j >= 0, j < n), col[j] == V.seq_items(seq[j])[c]))
+        cols.append(ZSeq(col, "tuple"))
+    return ConcreteIter(cols)
